@@ -315,6 +315,32 @@ TRUSTED_BASE = [
 ]
 
 
+def coqchk_all():
+    """Thorough tier: re-check every compiled Props file and everything it depends on with the
+    independent checker coqchk, print the context summary (axioms).  Cached by the hash of all
+    sources, shared between properties."""
+    h = hashlib.sha256()
+    for f in v_files():
+        h.update(open(f, "rb").read())
+    cache = os.path.join(COQ, ".coqchk-%s.log" % h.hexdigest()[:16])
+    lock = open(os.path.join(VERIF, ".build.lock"), "w")
+    fcntl.flock(lock, fcntl.LOCK_EX)
+    try:
+        if not os.path.exists(cache):
+            mods = ["updog.Props." + os.path.basename(f)[:-2] for f in v_files() if os.sep + "Props" + os.sep in f]
+            t0 = time.time()
+            p = sh(["coqchk", "-silent", "-o", "-Q", "theories", "updog"] + mods, cwd=COQ, timeout=6000, check=False)
+            with open(cache, "w") as fh:
+                fh.write(p.stdout + p.stderr + "\nrc=%d wall=%.0fs\n" % (p.returncode, time.time() - t0))
+        out = open(cache).read()
+    finally:
+        fcntl.flock(lock, fcntl.LOCK_UN)
+        lock.close()
+    m = re.search(r"\* Axioms:(.*?)\n\s*\n\* ", out, re.S)
+    axioms = (m.group(1).strip() if m else "?")
+    return {"ok": "rc=0" in out, "axioms": axioms, "summary": out[out.find("CONTEXT SUMMARY"):][:1200] if "CONTEXT SUMMARY" in out else out[-800:]}
+
+
 def proof_coverage(rep, pid, extra_obligations=0, extra_discharged=0):
     """Audit + re-check of Props/<pid>.v; fills the proof-level keys of the evidence."""
     bad = audit_sources()
@@ -333,4 +359,9 @@ def proof_coverage(rep, pid, extra_obligations=0, extra_discharged=0):
     })
     if not info["ok"]:
         raise FrameworkError("Props/%s.v does not check:\n%s" % (pid, info["stderr"]))
+    if rep.tier == "thorough":
+        chk = coqchk_all()
+        rep.coverage["coqchk"] = chk
+        if not chk["ok"]:
+            raise FrameworkError("coqchk rejects the compiled development:\n" + chk["summary"])
     return info
